@@ -177,7 +177,11 @@ def route(chan, sw, lv, env=None):
             r = _route(chan, sw, dict(lv, root=override))
     if not sw[2] and r == "user" and not has_user:
         # the step removed the user's handler: an added one gets it, else logging.lastResort -> sys.stderr
-        return "drop" if has_extra else ("cap" if sw[1] else "err")
+        if has_extra or LOGSPEC[chan][1] < logging.WARNING:
+            return "drop"
+        return "cap" if sw[1] else "err"
+    if not sw[2] and has_extra and not lv["handler"] and not lv.get("basic"):
+        return "drop"                         # a handler exists now: logging.lastResort is out of the game
     return r
 
 
@@ -197,6 +201,8 @@ def _route(chan, sw, lv):
         return "user"
     if lv.get("basic"):
         return "err"                          # logging.basicConfig(): StreamHandler bound to the original stderr
+    if LOGSPEC[chan][1] < logging.WARNING:
+        return "drop"                         # logging.lastResort handles WARNING and above only
     return "cap" if cap_err else "err"        # logging.lastResort -> sys.stderr
 
 
